@@ -72,6 +72,9 @@ func (g *gen) script(nc, self, to, lead int, size int) string {
 		case x < 19:
 			a = append(a, fmt.Sprintf("w%dx%d", tgt, 1+r.Intn(8)))
 			g.h.Count("act:worker")
+		case x < 20 && r.Intn(3) == 0:
+			a = append(a, []string{"z", "Z"}[r.Intn(2)])
+			g.h.Count("act:noise")
 		default:
 			if to != 0 {
 				a = append(a, fmt.Sprintf("n%d", g.h.Pick(5, 21, 25)))
@@ -82,6 +85,38 @@ func (g *gen) script(nc, self, to, lead int, size int) string {
 		}
 	}
 	return strings.Join(a, ",")
+}
+
+// sweep: every number of pushes 0..4 x every placement of the response among
+// them, for the front and for a back-end as issuer, alone and with a second
+// issuer active — deterministic, run first
+func (g *gen) sweep() []string {
+	var ops []string
+	for _, to := range []int{0, 1} {
+		for k := 0; k <= 4; k++ {
+			for at := 0; at <= k; at++ {
+				var a []string
+				for i := 0; i <= k; i++ {
+					if i == at {
+						a = append(a, "r")
+					}
+					if i < k {
+						a = append(a, "p0")
+					}
+				}
+				g.h.Count("sweep")
+				ops = append(ops, "reset n=1")
+				if (k+at)%2 == 1 {
+					ops = append(ops, fmt.Sprintf("req c=0 to=%d r=1/s1,P0x3,r,p0", 2+to))
+					ops = append(ops, fmt.Sprintf("req c=0 to=%d r=2/s1,%s", to, strings.Join(a, ",")), "go ms=2")
+				} else {
+					ops = append(ops, fmt.Sprintf("req c=0 to=%d r=1/%s", to, strings.Join(a, ",")))
+				}
+				ops = append(ops, "settle")
+			}
+		}
+	}
+	return ops
 }
 
 func (g *gen) genCase() []string {
